@@ -15,7 +15,17 @@ package disruption
 //@ pure rankOK(xs []*Candidate, j int, b int, onlyEmpty bool) bool = (!onlyEmpty || isEmptySpec(xs[j])) && cntP(xs, j + 1, poolName(xs[j]), onlyEmpty) <= b
 //@ rec cntTaken(xs []*Candidate, i int, p string, b int, onlyEmpty bool) int = i <= 0 ? 0 : cntTaken(xs, i - 1, p, b, onlyEmpty) + ((poolName(xs[i - 1]) == p && rankOK(xs, i - 1, b, onlyEmpty)) ? 1 : 0)
 
-// Emptiness (C05 + the C06 clauses, moved here verbatim from zz_contracts_C06_verif.go).
+// Emptiness (C05 + the C06 clauses [onlyEmptyNodes], [deleteOnly], [own], moved here verbatim from
+// zz_contracts_C06_verif.go; the overlay copy of that file only lacks this one contract).
+// Reference state S = right after sortCandidates (the walk order is fixed from there on; the []*Candidate cells written
+// later are only those of the output slice, so every counting function is evaluated in S).
+//   [decrementPerTaken]      mapping[p] == max(0, handed-in[p] - #empty candidates of p seen so far): one unit per selection.
+//   [selected]/[withinBudget] every selected candidate (every candidate of the command handed to validation) is the
+//                            content of some position j of the sorted candidates that is empty and among the first
+//                            handed-in[pool] empty candidates of its pool.
+//   [selectableWithinBudget] the number of such positions of pool p is min(handed-in[p], #empty of p) <= handed-in[p].
+// Not expressed: that distinct elements of the command come from distinct positions (needs the output index as a
+// counting function of the budgets map; map-typed spec parameters are not accepted) — see the report.
 //@ func (*Emptiness).ComputeCommands
 //@   prop C06 C05
 //@   requires [remainingNonNegative] forall p string {disruptionBudgetMapping[p]} :: disruptionBudgetMapping[p] >= 0
